@@ -101,6 +101,53 @@ def capi_rows():
     return rows
 
 
+def doc_tables():
+    """core/src/ast/docs.rs: the DocType variants, the names the rust_link parser accepts, and the three per-kind tables of
+    DocsUrlGenerator::gen_for_rust_link (segments that name the item, page prefix, member anchor)"""
+    txt = open(os.path.join(REPO, "core/src/ast/docs.rs")).read()
+    m = re.search(r"pub enum DocType \{(.*?)\n\}", txt, re.S)
+    if not m:
+        raise MachineryError("tablegen: enum DocType not found in core/src/ast/docs.rs")
+    variants = re.findall(r"^\s*(\w+),", m.group(1), re.M)
+    names = re.findall(r'"(\w+)" => DocType::(\w+),', txt)
+    if [b for _, b in names] != variants or any(a != b for a, b in names):
+        raise MachineryError(f"tablegen: the rust_link parser's names {names} are not the DocType variants {variants} one to one")
+    body = fn_body(txt, "gen_for_rust_link")
+    def arms(block, val_rx):
+        out = {}
+        for pats, val in re.findall(r"([\w\s|]+)=>\s*(\{[^{}]*\}|[^,\n]+)", block):
+            val = val.strip().strip("{}").strip()
+            if not re.fullmatch(val_rx, val):
+                raise MachineryError(f"tablegen: gen_for_rust_link: unexpected arm value {val!r}")
+            for v in re.findall(r"\w+", pats):
+                if v in out:
+                    raise MachineryError(f"tablegen: gen_for_rust_link: {v} matched twice")
+                out[v] = val
+        return out
+    m1 = re.search(r"\.len\(\)\s*\.saturating_sub\(match rust_link\.typ \{(.*?)\}\);", body, re.S)
+    if not m1:
+        raise MachineryError("tablegen: gen_for_rust_link: `path.elements.len().saturating_sub(match rust_link.typ {..})` not found "
+                             "(Docs/Model.v models the module depth as a saturating subtraction)")
+    need = arms(m1.group(1), r"\d+")
+    m2 = re.search(r"r\.push_str\(match rust_link\.typ \{(.*?)\}\);", body, re.S)
+    if not m2:
+        raise MachineryError("tablegen: gen_for_rust_link: the page-prefix match was not found")
+    prefix = arms(m2.group(1), r'"[^"]*"|unreachable!\(\)')
+    m3 = re.search(r"let anchor = match rust_link\.typ \{(.*?)\};", body, re.S)
+    if not m3:
+        raise MachineryError("tablegen: gen_for_rust_link: `let anchor = match rust_link.typ {..}` not found")
+    anchor = arms(m3.group(1), r'"[^"]*"|return r')
+    for tab, what in ((need, "module depth"), (prefix, "page prefix"), (anchor, "anchor")):
+        missing = [v for v in variants if v not in tab]
+        if missing:
+            raise MachineryError(f"tablegen: gen_for_rust_link: no {what} arm for {missing}")
+    for frag in ('if elements.peek().is_none()', 'r.push_str("index.html")', 'r.push_str(".html")', 'if let Some(member) = elements.next()',
+                 'if rust_link.typ == EnumVariantField', 'r.push_str(".field.")', 'r.push_str("/latest/")', '"https://docs.rs/"'):
+        if frag not in body:
+            raise MachineryError(f"tablegen: gen_for_rust_link no longer contains `{frag}` (the control skeleton Docs/Model.v transcribes)")
+    return variants, need, prefix, anchor
+
+
 def main():
     fields, nv_names = support_fields()
     others = other_names()
@@ -140,6 +187,17 @@ def main():
                              ("tool/src/kotlin/formatter.rs fmt_primitive_type_native (JNA struct fields, results)", "kt_prim_native", ktnat)):
         lines += ["", f"(* {title} *)", f"Definition {name} (p : prim) : string :=", "  match p with"]
         lines += [f'  | P{n} => "{tab[n]}"' for n, _ in PRIM_PATS] + ["  end."]
+    variants, need, prefix, anchor = doc_tables()
+    opt = lambda v: "None" if not v.startswith('"') else f"Some {v}"
+    lines += ["", "(* core/src/ast/docs.rs: enum DocType (= the kinds the rust_link parser accepts, under the same names) *)",
+              "Inductive doc_type := " + " | ".join("D" + v for v in variants) + ".",
+              "Definition doc_type_names : list (string * doc_type) := [" + "; ".join(f'("{v}", D{v})' for v in variants) + "].", "",
+              "(* DocsUrlGenerator::gen_for_rust_link: how many trailing path segments name the item (and its member, and the member's field) *)",
+              "Definition doc_need (t : doc_type) : nat :=", "  match t with"] + [f"  | D{v} => {need[v]}" for v in variants] + ["  end.", "",
+              "(* ... the page prefix (None: the unreachable!() arm) *)", "Definition doc_page_prefix (t : doc_type) : option string :=", "  match t with"] + \
+             [f"  | D{v} => {opt(prefix[v])}" for v in variants] + ["  end.", "",
+              "(* ... the member anchor (None: `return r`, the link ends at the item's page) *)", "Definition doc_anchor (t : doc_type) : option string :=", "  match t with"] + \
+             [f"  | D{v} => {opt(anchor[v])}" for v in variants] + ["  end."]
     out = "\n".join(lines) + "\n"
     path = os.path.join(COQ, "theories", "gen", "Tables.v")
     os.makedirs(os.path.dirname(path), exist_ok=True)
